@@ -558,6 +558,8 @@ impl<'a> DocGen<'a> {
                 1 => format!("id{}\u{a0}x", k),
                 2 => format!("\u{3000}id{}", k),
                 3 => format!("id{}\nz", k),
+                // a space inside (the renderer may write it as a run of spaces, which normalisation collapses)
+                4 | 5 => format!("id{} w", k),
                 _ => format!("id{}", k),
             };
             self.ids_used.push(id.clone());
